@@ -74,10 +74,18 @@ def setup(cfg, root):
             open(plan_path, "w").write(cfg.get("plan_text") or '[[entries]]\nname = "x"\n')
         elif cfg["plan"] == "malformed":
             open(plan_path, "w").write("x = [")
+        elif cfg["plan"] == "nonutf8":        # present but unreadable as text: an I/O error that is NOT "not found"
+            open(plan_path, "wb").write(b'[[entries]]\nname = "caf\xe9"\n')
+        elif cfg["plan"] == "isdir":
+            os.makedirs(plan_path)
         if cfg["store"] == "ok":
             open(os.path.join(root, "layers", "store.toml"), "w").write(cfg.get("store_text") or '[metadata]\nk = "old"\n')
         elif cfg["store"] == "malformed":
             open(os.path.join(root, "layers", "store.toml"), "w").write("x = [")
+        elif cfg["store"] == "nonutf8":
+            open(os.path.join(root, "layers", "store.toml"), "wb").write(b'[metadata]\nowner = "caf\xe9"\n')
+        elif cfg["store"] == "isdir":
+            os.makedirs(os.path.join(root, "layers", "store.toml"))
     pre = {}
     if cfg.get("pre"):
         if not is_build:
@@ -120,7 +128,7 @@ def run_one(cfg, root):
     is_build = cfg["exe"] == "build"
     plan_path = os.path.join(root, "plandir", "plan.toml")
     store_path = os.path.join(root, "layers", "store.toml")
-    store_before = open(store_path, "rb").read() if os.path.exists(store_path) else None
+    store_before = open(store_path, "rb").read() if os.path.isfile(store_path) else (b"<dir>" if os.path.isdir(store_path) else None)
     full = [os.path.join(root, "layers"), os.path.join(root, "platform"), plan_path] if is_build else \
            [os.path.join(root, "platform"), plan_path]
     if cfg["exe"] == "other":
@@ -160,7 +168,7 @@ def run_one(cfg, root):
         if not os.path.exists(store_path):
             o["store"] = "absent"
         else:
-            now = open(store_path, "rb").read()
+            now = open(store_path, "rb").read() if os.path.isfile(store_path) else b"<dir>"
             if store_before is not None and now == store_before:
                 o["store"] = "pre"
             else:
